@@ -32,26 +32,38 @@ Programs == <<
   ECall(ELam(<<Req("a"), Prm("b", "opt")>>, EList(<<EId("a"), EId("b")>>)), <<Call1(F, N(2))>>),
   EBin("where", L, ELam(<<Req("x")>>, EBin("lt", X, EBin("sub", Call1(F, N(0)), N(8))))),
   EBin("into", EBin("via", L, ELam(<<Req("x")>>, EList(<<X, Call1(F, X)>>))), EId("len")),
-  ECall(EId("sort_by"), <<EList(<<N(3), N(1), N(2)>>), ELam(<<Req("x")>>, EBin("sub", N(0), X))>>)
+  ECall(EId("sort_by"), <<EList(<<N(3), N(1), N(2)>>), ELam(<<Req("x")>>, EBin("sub", N(0), X))>>),
+  \* heap values built in place or bound beforehand: records, strings, spreads, field access, logical operators
+  ECall(EId("sort_by"), <<EList(<<ERec(<<RStatic(<<12>>, N(2))>>), ERec(<<RStatic(<<12>>, N(1))>>)>>), ELam(<<Req("x")>>, EDot(X, <<12>>))>>),
+  EDot(ERec(<<RStatic(<<12>>, EList(<<N(1), Call1(F, N(1))>>)), RSpreadE(ERec(<<RStatic(<<13>>, L)>>)), RStatic(<<14>>, G)>>), <<13>>),
+  EList(<<ESpread(L), ESpread(ELit(Str(<<12, 13>>))), EBin("add", ELit(Str(<<12>>)), ELit(Str(<<13>>)))>>),
+  EBin("coalesce", EIdx(L, N(7)), EBin("and", EBin("lt", Call1(F, N(1)), N(20)), EUn("not", ELit(Bool(FALSE))))),
+  ECall(EId("max"), <<ESpread(EBin("via", L, F)), EUn("neg", Call1(F, N(1)))>>),
+  EBin("eq", EList(<<ERec(<<RStatic(<<12>>, L)>>), ELit(Null)>>), EList(<<ERec(<<RStatic(<<12>>, EList(<<N(1), N(2), N(3)>>))>>), ELit(Null)>>))
 >>
 
 \* ------------------------------------------------------------------ positions
 Ch(s, i, e) == [s |-> s, i |-> i, e |-> e]
+Inner(x) == IF x.k = "spread" THEN x.e ELSE x      \* a spread is not an expression of its own: positions are inside it
 Children(e) ==
   CASE e.k = "bin"  -> <<Ch("l", 0, e.l), Ch("r", 0, e.r)>>
-    [] e.k = "list" -> [j \in 1..Len(e.xs) |-> Ch("xs", j, e.xs[j])]
+    [] e.k = "list" -> [j \in 1..Len(e.xs) |-> Ch("xs", j, Inner(e.xs[j]))]
     [] e.k = "lam"  -> <<Ch("b", 0, e.b)>>
-    [] e.k = "call" -> <<Ch("f", 0, e.f)>> \o [j \in 1..Len(e.args) |-> Ch("args", j, e.args[j])]
+    [] e.k = "call" -> <<Ch("f", 0, e.f)>> \o [j \in 1..Len(e.args) |-> Ch("args", j, Inner(e.args[j]))]
     [] e.k = "do"   -> [j \in 1..Len(e.ss) |-> Ch("ss", j, e.ss[j])] \o <<Ch("r", 0, e.r)>>
     [] e.k = "asg"  -> <<Ch("e", 0, e.e)>>
     [] e.k = "if"   -> <<Ch("c", 0, e.c), Ch("t", 0, e.t), Ch("e", 0, e.e)>>
     [] e.k = "idx"  -> <<Ch("e", 0, e.e), Ch("i", 0, e.i)>>
+    [] e.k \in {"un", "dot"} -> <<Ch("e", 0, e.e)>>
+    [] e.k = "rec"  -> [j \in 1..Len(e.es) |-> Ch("es", j, IF e.es[j].m = "short" THEN EId(e.es[j].n) ELSE e.es[j].e)]
     [] OTHER -> <<>>
 With(e, s, i, new) ==
   CASE s = "l" -> [e EXCEPT !.l = new] [] s = "r" -> [e EXCEPT !.r = new] [] s = "b" -> [e EXCEPT !.b = new]
     [] s = "f" -> [e EXCEPT !.f = new] [] s = "c" -> [e EXCEPT !.c = new] [] s = "t" -> [e EXCEPT !.t = new]
     [] s = "e" -> [e EXCEPT !.e = new] [] s = "i" -> [e EXCEPT !.i = new]
-    [] s = "xs" -> [e EXCEPT !.xs[i] = new] [] s = "args" -> [e EXCEPT !.args[i] = new] [] s = "ss" -> [e EXCEPT !.ss[i] = new]
+    [] s = "xs" -> IF e.xs[i].k = "spread" THEN [e EXCEPT !.xs[i].e = new] ELSE [e EXCEPT !.xs[i] = new]
+    [] s = "args" -> IF e.args[i].k = "spread" THEN [e EXCEPT !.args[i].e = new] ELSE [e EXCEPT !.args[i] = new] [] s = "ss" -> [e EXCEPT !.ss[i] = new]
+    [] s = "es" -> IF e.es[i].m = "short" THEN e ELSE [e EXCEPT !.es[i].e = new]
 RECURSIVE Paths(_)
 Paths(e) == {<<>>} \cup UNION {{<<[s |-> Children(e)[j].s, i |-> Children(e)[j].i]>> \o p : p \in Paths(Children(e)[j].e)} : j \in 1..Len(Children(e))}
 RECURSIVE At(_, _)
